@@ -81,3 +81,30 @@ PROPS["C17"] = {
         H("c17_scalars::c17_encode_twin", kind="twin"),
     ],
 }
+
+PROPS["C07"] = {
+    "claim": "Tokens::new + TokensIter equal the reference tokenizer on every line of <= 6 (quick) / <= 8 (thorough) bytes over all byte values except NUL; RawCommand::from_tokens splits name/arguments; quoted rendering of any list of <= 3 strings of <= 2 bytes round-trips",
+    "assumptions": [
+        "assumed away (statement silent): inside quotes a backslash followed by a byte other than quote/backslash, or by the end of the line",
+        "lines longer than the bound are outside the claim (the scanner is a single-pass finite automaton, which is an argument, not a solver result)",
+    ],
+    "harnesses": [
+        H("c07_tokens::c07_tokens_vs_model", tier="quick", bounds="every line of <= 6 bytes, all byte values but NUL", timeout=900, mem=4),
+        H("c07_tokens::c07_raw_command_split", tier="quick", bounds="every line of <= 6 bytes whose later tokens do not start with '-'", timeout=900, mem=4),
+        H("c07_tokens::c07_round_trip", bounds="every list of <= 3 strings of <= 2 bytes (any byte but NUL)", timeout=1500, mem=6),
+        H("c07_tokens::c07_tokens_vs_model", tier="thorough", cfg=["vp_thorough"], bounds="every line of <= 8 bytes", timeout=3400, mem=10),
+        H("c07_tokens::c07_raw_command_split", tier="thorough", cfg=["vp_thorough"], bounds="every line of <= 8 bytes whose later tokens do not start with '-'", timeout=3400, mem=10),
+        H("c07_tokens::c07_tokens_twin", kind="twin"),
+    ],
+}
+
+PROPS["C08"] = {
+    "claim": "ArgsIter over every NUL-separated token buffer of <= 6 (quick) / <= 8 (thorough) well-formed UTF-8 bytes (all encoded lengths, empty tokens, empty list) yields exactly the reference classification, item by item, with string payloads compared by position (offset,length) in the buffer - which implies the re-join law",
+    "assumptions": ["token buffers longer than the bound are outside the claim"],
+    "harnesses": [
+        H("c08_args::c08_classify_vs_model", tier="quick", bounds="every well-formed token buffer of <= 6 bytes", timeout=900, mem=4),
+        H("c08_args::c08_classify_vs_model", tier="thorough", cfg=["vp_thorough"], bounds="every well-formed token buffer of <= 8 bytes", timeout=3400, mem=10),
+        H("c08_args::c08_classify_twin", kind="twin"),
+        H("c17_scalars::c17_pop_front", bounds="char_pop_front on every ordered pair of scalar values", exhaustive=True),
+    ],
+}
